@@ -7,8 +7,8 @@ BIN = "h_world"
 
 # Per property: monitor tags that decide it, op kinds whose results form its projection of the
 # transcript (a model/implementation DIFF on another op kind is somebody else's business).
-PROBE_OPS = {"alive", "walive", "ejoin", "mask", "events"}   # printed by the harness after every mutating op anyway
-OP_ALIAS = {"gget": "get", "ggetmut": "getmut", "gins": "ins", "grem": "rem", "lget": "get", "lgetmut": "getmut", "ldrain2": "rem"}   # same model ops
+PROBE_OPS = {"alive", "walive", "ejoin", "pejoin", "mask", "events"}   # printed by the harness after every mutating op anyway
+OP_ALIAS = {"gget": "get", "ggetmut": "getmut", "gins": "ins", "grem": "rem", "lget": "get", "lgetmut": "getmut", "ldrain2": "rem", "lentry2": "entry_or", "pejoin": "ejoin", "lazy_create_nobuild": "lazy_create"}   # same model ops
 STORE_OPS = ["get", "getmut", "has", "ins", "rem", "entry_or", "entry_rep", "entry_rem", "mut_or_default"]
 PROPS = {
     "C01": {"mon": ["C01"], "proj": ["create", "create_iter", "createw", "lazy_create"], "kind": "ent",
@@ -22,7 +22,7 @@ PROPS = {
     "C04": {"mon": ["C04"], "proj": STORE_OPS + ["count", "empty", "mask", "clear", "drain", "slice", "createw"], "kind": "store",
             "focus": ["any", "far", "many", "churn", "churn"], "sexh": list(range(12)),
             "what": "every storage kind is observably a plain map from live entity to component (results, mask, count, slices)"},
-    "C05": {"mon": ["C05"], "proj": ["del_now", "del_batch", "del_atomic", "del_all", "maintain", "mask", "createw", "create", "create_iter", "reg", "lazy_create"],
+    "C05": {"mon": ["C05"], "proj": ["del_now", "del_batch", "del_atomic", "del_all", "maintain", "mask", "slice", "createw", "create", "create_iter", "reg", "lazy_create"],
             "kind": "store", "focus": ["many", "any", "lazy", "many"], "sexh": [1, 6],
             "what": "a deletion taking effect purges the entity's components from every registered storage and nothing else; new entities start empty"},
     "C08": {"mon": ["C08"], "proj": ["drop_world"], "ledger": True, "kind": "store", "focus": ["ledger", "any", "lazy", "many", "churn", "fault"], "sexh": [0, 1, 2, 5],
@@ -76,6 +76,10 @@ def plan(prop, tier, seed):
                 runs.append((f"sgen-{f}-{i}", ["sgen", str(seed * 1000 + i), "900" if f in ("fault", "faultchurn") else "350", "120" if f in ("churn", "faultchurn") else "45", f]))
             for k in spec["sexh"][:4]:
                 runs.append((f"sexh{k}/3", ["sexh", str(k), "3"]))
+            if prop == "C05":
+                # deletions over storages of plain-data component types (kinds 1 and 2 without a destructor)
+                runs.append(("sgen-many-pod", ["sgen", str(seed * 1000 + 90), "350", "45", "many"], {"VH_POD": "1"}))
+                runs.append(("sgen-churn-pod", ["sgen", str(seed * 1000 + 91), "300", "120", "churn"], {"VH_POD": "1"}))
             if prop == "C04":
                 # kinds 1 and 2 with component types that have no destructor (plain data)
                 runs.append(("sgen-churn-pod", ["sgen", str(seed * 1000 + 88), "350", "120", "churn"], {"VH_POD": "1"}))
@@ -98,6 +102,10 @@ def plan(prop, tier, seed):
                 runs.append((f"sexh{k}/3", ["sexh", str(k), "3"]))
                 for s in range(4):
                     runs.append((f"sexh{k}/4/{s}", ["sexh", str(k), "4", str(s), "4"]))
+            if prop == "C05":
+                for i in range(4):
+                    runs.append((f"sgen-many-pod{i}", ["sgen", str(seed * 1000 + 90 + 2 * i), "2500", "90", "many"], {"VH_POD": "1"}))
+                    runs.append((f"sgen-churn-pod{i}", ["sgen", str(seed * 1000 + 91 + 2 * i), "2000", "160", "churn"], {"VH_POD": "1"}))
             if prop == "C04":
                 for i in range(4):
                     runs.append((f"sgen-churn-pod{i}", ["sgen", str(seed * 1000 + 88 + 2 * i), "2500", "160", "churn"], {"VH_POD": "1"}))
@@ -439,6 +447,51 @@ def check(prop, tier, seed, t0):
     return 1 if violations else 0
 
 
+def mon_pass(prop, tier, seed, foci=("any", "many")):
+    """A pass other domains' checks add: world-domain histories judged only by the driver's `MON <prop>` lines (verdicts of
+    monitors that live in the world loop but belong to another property, e.g. the lending-join look-ups of C06).
+    Returns (violations, stats)."""
+    ok, blog = vlib.build_harness([BIN])
+    if not ok:
+        return 0, {"skipped": "h_world does not build"}
+    runs = [(f"sgen-{f}-{i}", ["sgen", str(seed * 1000 + 500 + 10 * i + j), "350" if tier == "quick" else "2500", "45", f])
+            for i in range(1 if tier == "quick" else 4) for j, f in enumerate(foci)]
+    with ThreadPoolExecutor(max_workers=8) as ex:
+        results = list(ex.map(run_one, runs))
+    violations, seen = 0, set()
+    for r in results:
+        ms = [m for m in r["mon"] if m.split()[1] == prop]
+        if not ms:
+            continue
+        m = ms[0]
+        cid = vlib.field(m, "case")
+        EXTRA_ENV.clear(); ACTIVE_BIN[0] = None
+        ops = case_ops(r, cid)[:int(vlib.field(m, "line"))]
+        def still(o):
+            return any(x.split()[1] == prop for x in run_script_ops(o)["mon"])
+        if still(ops):
+            ops = vlib.ddmin(ops, still)
+        canon = vlib.canonical(ops)
+        if canon in seen:
+            continue
+        seen.add(canon)
+        path = vlib.write_replay(prop, f"world-{seed}-{len(seen)}",
+                                 [f"property {prop} (world-domain pass): look-ups through lending joins of one storage",
+                                  f"monitor verdict on the implementation's transcript: {m}",
+                                  f"found by: h_world {' '.join(r['tail'])} (case {cid}); minimised by ddmin",
+                                  f"replay: bin/check {prop} --replay <this file>"], ops, "world")
+        print(f"VIOLATION property={prop} replay={path}")
+        violations += 1
+        if violations >= 2:
+            break
+    stats = {}
+    for r in results:
+        for k, v in r["stats"].items():
+            if isinstance(v, int):
+                stats[k] = stats.get(k, 0) + v
+    return violations, {"runs": [r["label"] for r in results], "cases": stats.get("cases", 0), "lines": stats.get("lines", 0)}
+
+
 def replay(prop, path):
     if "# domain changeset" in open(path).read():
         import dom_changeset
@@ -446,7 +499,7 @@ def replay(prop, path):
     if "# domain conc" in open(path).read():
         import dom_conc
         return dom_conc.replay(prop, path)
-    LEDGER["on"] = bool(PROPS[prop].get("ledger"))
+    LEDGER["on"] = bool(PROPS.get(prop, {}).get("ledger"))
     ok, blog = vlib.build_harness([BIN])
     if not ok:
         print(blog); return 2
@@ -464,7 +517,10 @@ def replay(prop, path):
     for l in lines:
         print(l)
     r = vlib.parse_driver(lines)
-    mons, diffs = relevant(prop, r)
+    if prop not in PROPS:
+        mons, diffs = [m for m in r["mon"] if m.split()[1] == prop], []
+    else:
+        mons, diffs = relevant(prop, r)
     if mons or diffs:
         print(f"VIOLATION property={prop} replay={path}")
         return 1
